@@ -100,7 +100,9 @@ def ref_metric(kind, vals):
     if kind == "u":
         if fam is None:
             return None
-        return ("i", len(set(L.ref_key(fam, v) for v in nn)))
+        d = len(set(L.ref_key(fam, v) for v in nn))
+        # whether a missing value counts as one more distinct value is not fixed by the property: accept both
+        return ("ialt", d, d + (1 if len(nn) < len(vals) else 0))
     if kind in ("t", "a"):
         if fam in ("int",):
             s = sum(v[1] for v in nn)
@@ -130,6 +132,8 @@ def metric_matches(exp, got):
         return True
     if exp[0] == "i":
         return got == f"i{exp[1]}" or (got.startswith("u") and got.split("[")[0] == f"u{exp[1]}")
+    if exp[0] == "ialt":
+        return got.startswith("u") and got.split("[")[0] in (f"u{exp[1]}", f"u{exp[2]}")
     if exp[0] == "avg":
         return got == f"a{exp[1]}/{exp[2]}"
     if exp[0] == "empty":
